@@ -14,7 +14,7 @@
 import GruleModel.Syntax.Build
 import GruleModel.Properties.C16
 import GruleModel.Properties.SyntaxTie
-import GruleModel.Proofs.ParseFuel
+import GruleModel.Proofs.RealLiterals
 import GruleModel.Proofs.LexFacts
 namespace Grule.C17
 open Grule Grule.Syntax Grule.C16
@@ -180,17 +180,24 @@ example : (front "rule R { when F.S == \"a\\qb\" then F.I = 2; }".toList).verdic
     (`Proofs/ParseDoc.parse_doc`, the print/parse round trip R10). What is not proved: that the lexer turns a rendering of
     these tokens (spacing, comments, keyword case, literal notations) back into them, and the converse direction (a text
     the recogniser accepts derives from the grammar). -/
-theorem C17_valid_documents_parse (d : Dec) (cT : Const → List Token) (ot : BinOp → List Char) (dT : String → Token)
-    (hc : ParseAtoms.ConstOK d cT) (rules : List Rule) (hw : ∀ r ∈ rules, ParseDoc.WFRule r ∧ ParseDoc.DescOK dT r.desc) (f n : Nat)
+theorem C17_valid_documents_parse (d : Dec) (cT : Const → List Token) (ot : BinOp → List Char) (dT : String → Token) (P : Const → Prop)
+    (hc : ParseAtoms.ConstOK d cT P) (rules : List Rule) (hw : ∀ r ∈ rules, ParseDoc.WFRule P r ∧ ParseDoc.DescOK dT r.desc) (f n : Nat)
     (hf : ∀ r ∈ rules, ParseDoc.nRule r ≤ f) (hn : rules.length + 1 ≤ n) :
     parseRules d (f + 1) n (ParseDoc.fDoc cT ot dT rules) [] = (rules, none) :=
-  ParseDoc.parse_doc d cT ot dT hc rules hw f n hf hn
+  ParseDoc.parse_doc d cT ot dT P hc rules hw f n hf hn
 
 /-- … and with the parser's own fuel: `parseDoc` on the tokens of any well-formed document returns exactly its rules -/
-theorem C17_parseDoc_roundtrip (d : Dec) (cT : Const → List Token) (ot : BinOp → List Char) (dT : String → Token)
-    (hc : ParseAtoms.ConstOK d cT) (rules : List Rule) (hw : ∀ r ∈ rules, ParseDoc.WFRule r ∧ ParseDoc.DescOK dT r.desc) :
+theorem C17_parseDoc_roundtrip (d : Dec) (cT : Const → List Token) (ot : BinOp → List Char) (dT : String → Token) (P : Const → Prop)
+    (hc : ParseAtoms.ConstOK d cT P) (rules : List Rule) (hw : ∀ r ∈ rules, ParseDoc.WFRule P r ∧ ParseDoc.DescOK dT r.desc) :
     parseDoc d (ParseDoc.fDoc cT ot dT rules) = (rules, none) :=
-  ParseFuel.parseDoc_roundtrip d cT ot dT hc rules hw
+  ParseFuel.parseDoc_roundtrip d cT ot dT P hc rules hw
+
+/-- … and with the real literal decoder: every document whose constants are integers inside int64, quotable strings,
+    booleans or nil is read back by `parseDoc realDec` from its canonical tokens as exactly its rules -/
+theorem C17_parseDoc_real (ot : BinOp → List Char) (dT : String → Token) (rules : List Rule)
+    (hw : ∀ r ∈ rules, ParseDoc.WFRule RealLiterals.Covered r ∧ ParseDoc.DescOK dT r.desc) :
+    parseDoc realDec (ParseDoc.fDoc RealLiterals.canonTok ot dT rules) = (rules, none) :=
+  RealLiterals.real_parseDoc ot dT rules hw
 
 /-- a text that starts with a character no lexer rule can begin with is rejected (`lexical`), whatever follows -/
 theorem C17_illegal_start_rejected (c : Char) (cs : List Char) (h : c ∈ LexFacts.illegalStart) :
@@ -214,6 +221,7 @@ theorem C17_leading_whitespace (ws cs : List Char) (h : ∀ c ∈ ws, isWs c = t
 #print axioms accepted_means
 #print axioms C17_valid_documents_parse
 #print axioms C17_parseDoc_roundtrip
+#print axioms C17_parseDoc_real
 #print axioms C17_illegal_start_rejected
 #print axioms C17_leading_whitespace
 #print axioms Grule.SyntaxTie.tie_lexer_order
